@@ -375,6 +375,101 @@ fn generic_case(line: &str) -> String {
     }) { Ok(s) => s, Err(_) => "{\"panic\":1}".to_string() }
 }
 
+// ---- programmatically built queries: JSON rendering of the AST -> JpQuery (same wire format as the dumper above)
+fn cps_to_string(v: &Value) -> String {
+    v.as_array().map(|a| a.iter().filter_map(|x| x.as_u64().and_then(|c| char::from_u32(c as u32))).collect()).unwrap_or_default()
+}
+fn int_of(v: &Value) -> i64 { v.as_str().and_then(|s| s.parse::<i64>().ok()).or(v.as_i64()).unwrap_or(0) }
+fn opt_int(v: &Value) -> Option<i64> { if v.is_null() { None } else { Some(int_of(v)) } }
+fn lit_of(v: &Value) -> Literal {
+    if v.is_null() { return Literal::Null; }
+    if let Some(i) = v.get("i") { return Literal::Int(int_of(i)); }
+    if let Some(f) = v.get("fl") { let n = int_of(&f[0]) as f64; let d = int_of(&f[1]) as f64; return Literal::Float(n / d); }
+    if let Some(s) = v.get("s") { return Literal::String(cps_to_string(s)); }
+    if let Some(b) = v.get("b") { return Literal::Bool(b.as_bool().unwrap_or(false)); }
+    Literal::Null
+}
+fn seg_of(v: &Value) -> Segment {
+    if let Some(d) = v.get("D") { return Segment::Descendant(Box::new(seg_of(d))); }
+    if let Some(s) = v.get("S") { return Segment::Selector(sel_of(s)); }
+    Segment::Selectors(v.get("SS").and_then(|a| a.as_array()).map(|a| a.iter().map(sel_of).collect()).unwrap_or_default())
+}
+fn sel_of(v: &Value) -> Selector {
+    if v.as_str() == Some("W") { return Selector::Wildcard; }
+    if let Some(n) = v.get("N") { return Selector::Name(cps_to_string(n)); }
+    if let Some(i) = v.get("I") { return Selector::Index(int_of(i)); }
+    if let Some(l) = v.get("L") { return Selector::Slice(opt_int(&l[0]), opt_int(&l[1]), opt_int(&l[2])); }
+    Selector::Filter(flt_of(&v["F"]))
+}
+fn flt_of(v: &Value) -> Filter {
+    if let Some(a) = v.get("or").and_then(|a| a.as_array()) { return Filter::Or(a.iter().map(flt_of).collect()); }
+    if let Some(a) = v.get("and").and_then(|a| a.as_array()) { return Filter::And(a.iter().map(flt_of).collect()); }
+    Filter::Atom(atom_of(&v["atom"]))
+}
+fn atom_of(v: &Value) -> FilterAtom {
+    let not = v.get("not").and_then(|b| b.as_bool()).unwrap_or(false);
+    if let Some(f) = v.get("f") { return FilterAtom::Filter { expr: Box::new(flt_of(f)), not }; }
+    if let Some(t) = v.get("t") { return FilterAtom::Test { expr: Box::new(test_of(t)), not }; }
+    let c = &v["c"];
+    let (l, r) = (cmpb_of(&c[1]), cmpb_of(&c[2]));
+    FilterAtom::Comparison(Box::new(match c[0].as_str().unwrap_or("==") {
+        "==" => Comparison::Eq(l, r), "!=" => Comparison::Ne(l, r), ">" => Comparison::Gt(l, r),
+        ">=" => Comparison::Gte(l, r), "<" => Comparison::Lt(l, r), _ => Comparison::Lte(l, r),
+    }))
+}
+fn cmpb_of(v: &Value) -> Comparable {
+    if let Some(l) = v.get("lit") { return Comparable::Literal(lit_of(l)); }
+    if let Some(f) = v.get("fn") { return Comparable::Function(fn_of(f)); }
+    let sq = &v["sq"];
+    let segs: Vec<SingularQuerySegment> = sq[1].as_array().map(|a| a.iter().map(|s| {
+        if let Some(i) = s.get("I") { SingularQuerySegment::Index(int_of(i)) } else { SingularQuerySegment::Name(cps_to_string(&s["N"])) }
+    }).collect()).unwrap_or_default();
+    if sq[0].as_str() == Some("$") { Comparable::SingularQuery(SingularQuery::Root(segs)) } else { Comparable::SingularQuery(SingularQuery::Current(segs)) }
+}
+fn test_of(v: &Value) -> Test {
+    if let Some(a) = v.get("rel").and_then(|a| a.as_array()) { return Test::RelQuery(a.iter().map(seg_of).collect()); }
+    if let Some(a) = v.get("abs").and_then(|a| a.as_array()) { return Test::AbsQuery(JpQuery::new(a.iter().map(seg_of).collect())); }
+    Test::Function(Box::new(fn_of(&v["fn"])))
+}
+fn arg_of(v: &Value) -> FnArg {
+    if let Some(l) = v.get("lit") { return FnArg::Literal(lit_of(l)); }
+    if let Some(t) = v.get("t") { return FnArg::Test(Box::new(test_of(t))); }
+    FnArg::Filter(flt_of(&v["f"]))
+}
+fn fn_of(v: &Value) -> TestFunction {
+    let name = cps_to_string(&v["name"]);
+    let args: Vec<FnArg> = v["args"].as_array().map(|a| a.iter().map(arg_of).collect()).unwrap_or_default();
+    let a = |i: usize| args.get(i).cloned().unwrap_or(FnArg::Literal(Literal::Null));
+    match name.as_str() {
+        "length" => TestFunction::Length(Box::new(a(0))), "value" => TestFunction::Value(a(0)), "count" => TestFunction::Count(a(0)),
+        "search" => TestFunction::Search(a(0), a(1)), "match" => TestFunction::Match(a(0), a(1)),
+        other => TestFunction::Custom(other.strip_prefix("custom:").unwrap_or(other).to_string(), args),
+    }
+}
+/// evaluate a programmatically built query (an AST the parser may be unable to produce) through `js_path_process`
+fn ast_case(line: &str) -> String {
+    let case: Value = match serde_json::from_str(line) { Ok(v) => v, Err(e) => return format!("{{\"badjson\":\"{}\"}}", e) };
+    let doc = case["doc"].clone();
+    let before = doc.clone();
+    let r = std::panic::catch_unwind(|| {
+        let q = JpQuery::new(case["ast"].as_array().map(|a| a.iter().map(seg_of).collect()).unwrap_or_default());
+        match js_path_process(&q, &doc) {
+            Ok(rs) => {
+                let items: Vec<String> = rs.into_iter().map(|r| {
+                    let path = r.clone().path();
+                    let val = r.val();
+                    let mut acc = vec![];
+                    let found = locate(&doc, val, &mut acc);
+                    format!("{{\"p\":{},\"l\":{},\"v\":{}}}", cps(&path), if found { format!("[{}]", acc.join(",")) } else { "\"NOTFOUND\"".into() }, canon(val))
+                }).collect();
+                format!("{{\"ok\":[{}]}}", items.join(","))
+            }
+            Err(_) => "{\"err\":1}".to_string(),
+        }
+    });
+    match r { Ok(s) => if doc == before { s } else { "{\"docchanged\":1}".to_string() }, Err(_) => "{\"panic\":1}".to_string() }
+}
+
 fn _assert_send_sync() {
     fn is<T: Send + Sync>() {}
     is::<jsonpath_rust::parser::model::JpQuery>();
@@ -406,6 +501,7 @@ fn main() {
             "ref" => ref_case(&line),
             "hist" => hist_case(&line),
             "generic" => generic_case(&line),
+            "ast" => ast_case(&line),
             _ => parse_case(&line),
         };
         writeln!(out, "{}", res).unwrap();
